@@ -1602,6 +1602,19 @@ fn refv_descs(rng: &mut Rng, count: usize, max_log_len: u32) -> Vec<AirDesc> {
     v.push(d.clone());
     d.exemptions = 3;
     v.push(d);
+    // degree 5: the AIR constructor refuses blowup factors below 4 (a mutated blowup byte makes `verify` panic)
+    let e = Expr::add(Expr::pow(Expr::Cur(0), 5), Expr::Const(5));
+    v.push(AirDesc {
+        width: 1,
+        trace_len: 8,
+        exemptions: 1,
+        tail_junk: false,
+        periodic: vec![],
+        cols: vec![ColGen::Step { init: None, expr: e.clone() }],
+        constraints: vec![Constraint { degree: Degree::new(5), expr: Expr::sub(Expr::Nxt(0), e) }],
+        assertions: vec![AssertDesc::single(0, 0)],
+        aux: None,
+    });
     let bud = Budget { min_log_len: 3, max_log_len, max_width: 3, max_degree: 3, aux_pct: 0, lagrange_pct: 0, exemptions: true, degenerate: false, sequences: true };
     let mut guard = 0;
     while v.len() < count && guard < 10 * count {
@@ -1699,6 +1712,12 @@ fn refv_lines(rng: &mut Rng, tier: Tier) -> Vec<String> {
                     shape.push((name, p.to_bytes()));
                 }
             }
+        }
+        // always: a blowup factor below what the AIR's degrees need (the AIR constructor panics inside `verify`)
+        if c.desc.min_blowup() > 2 {
+            let mut p = base.pt.clone();
+            p.options[1] = 2;
+            out.push(format!("{} mc:0 {} shape:context.options {}", head, pubs, hex(&p.to_bytes())));
         }
         let mut fams = fams;
         fams.push(("shape", 5 * per, shape));
@@ -1847,7 +1866,12 @@ impl Prop for P {
         // the reference-verifier lines are spread over the run: the model side of the check evaluates
         // contiguous pieces of the op list in parallel, and these lines are the expensive ones there
         let mut refv_rng = rng.fork();
-        let refv = refv_lines(&mut refv_rng, tier);
+        let mut refv = refv_lines(&mut refv_rng, tier);
+        // mixed, so that every piece gets cheap and expensive lines of every configuration
+        for i in (1..refv.len()).rev() {
+            let j = refv_rng.below(i as u64 + 1) as usize;
+            refv.swap(i, j);
+        }
         let refv_chunk = (refv.len() + cfgs.len().max(1) - 1) / cfgs.len().max(1);
         let mut refv_next = 0usize;
         let exhaustive_budget = default_n(tier, 6, 1_000_000, n);
